@@ -299,3 +299,20 @@ pub fn ident<R: Registry>(bytes: Vec<u8>) -> archetype::Identifier<R> {
     // SAFETY: callers pass `(R::LEN + 7) / 8` bytes with clear padding.
     unsafe { archetype::Identifier::<R>::new(bytes) }
 }
+
+// Sixteen components: two full identifier bytes.
+#[derive(Clone, Copy, Debug, PartialEq, Eq)]
+pub struct C9(pub u8);
+#[derive(Clone, Copy, Debug, PartialEq, Eq)]
+pub struct C10(pub u8);
+#[derive(Clone, Copy, Debug, PartialEq, Eq)]
+pub struct C11(pub u8);
+#[derive(Clone, Copy, Debug, PartialEq, Eq)]
+pub struct C12(pub u8);
+#[derive(Clone, Copy, Debug, PartialEq, Eq)]
+pub struct C13(pub u8);
+#[derive(Clone, Copy, Debug, PartialEq, Eq)]
+pub struct C14(pub u8);
+#[derive(Clone, Copy, Debug, PartialEq, Eq)]
+pub struct C15(pub u8);
+pub type R16 = crate::Registry!(C0, C1, C2, C3, C4, C5, C6, C7, C8, C9, C10, C11, C12, C13, C14, C15);
